@@ -28,6 +28,18 @@ CHECKS = {
 
 NOT_APPLICABLE = []
 
+CHECKS['C08'] = (
+    'bounded exploration of real engine runs of policy-carrying tasks on '
+    'minidb: per-attempt outcomes, policy expression values and the order of '
+    'timer jobs relative to results are solver variables',
+    'Retry makes <= count+1 attempts, stops at the first success / '
+    'continue-on false / break-on true with one delayed continuation per '
+    'retry, and the last attempt decides state, accepted result and routing; '
+    'wait-before / wait-after postpone without loss; timeout fails only an '
+    'incomplete task; fail-on and pause-before behave as documented; '
+    'task-level policies override task-defaults.',
+    '§3 C08')
+
 CHECKS['C07'] = (
     'bounded exploration of real engine runs of a with-items task on minidb: '
     'item count, concurrency (absent / literal / expression), every item '
